@@ -59,6 +59,7 @@ pub fn store_coords(
 
 /// Main storage for Zarr MCMC traces
 pub struct ZarrTraceStorage {
+    store_warmup: bool,
     arrays: Arc<ArrayCollection>,
     draw_chunk_size: u64,
     param_types: Vec<(String, ItemType)>,
@@ -68,6 +69,7 @@ pub struct ZarrTraceStorage {
 
 /// Per-chain storage for Zarr MCMC traces
 pub struct ZarrChainStorage {
+    store_warmup: bool,
     draw_buffers: HashMap<String, SampleBuffer>,
     stats_buffers: HashMap<String, SampleBuffer>,
     arrays: Arc<ArrayCollection>,
@@ -163,6 +165,7 @@ impl ZarrChainStorage {
         buffer_size: u64,
         chain: u64,
         event_dim_of_stat: HashMap<String, String>,
+        store_warmup: bool,
     ) -> Self {
         let draw_buffers = draw_types
             .iter()
@@ -178,6 +181,7 @@ impl ZarrChainStorage {
             stats_buffers,
             arrays,
             chain,
+            store_warmup,
             last_sample_was_warmup: true,
             event_dim_of_stat,
             warmup_event_counts: HashMap::new(),
@@ -253,6 +257,10 @@ impl ChainStorage for ZarrChainStorage {
         draws: Vec<(&str, Option<Value>)>,
         info: &Progress,
     ) -> Result<()> {
+        if info.tuning && !self.store_warmup {
+            return Ok(());
+        }
+
         let is_first_draw = self.last_sample_was_warmup && !info.tuning;
         if is_first_draw {
             self.warmup_event_counts = self.event_counts();
@@ -483,6 +491,7 @@ impl StorageConfig for ZarrConfig {
         }
         let store = self.store;
         let draw_chunk_size = self.draw_chunk_size;
+        let store_warmup = self.store_warmup;
 
         let mut root = GroupBuilder::new().build(store.clone(), &group_path)?;
 
@@ -611,6 +620,7 @@ impl StorageConfig for ZarrConfig {
             draw_types,
             draw_chunk_size,
             event_dim_of_stat,
+            store_warmup,
         })
     }
 }
@@ -628,6 +638,7 @@ impl TraceStorage for ZarrTraceStorage {
             self.draw_chunk_size,
             chain_id as _,
             self.event_dim_of_stat.clone(),
+            self.store_warmup,
         ))
     }
 
